@@ -182,3 +182,92 @@ func HarnessC16Pool() {
 	bytesPool.put(y)
 	vreach("C16.pool.end")
 }
+
+// HarnessC16Caller: the caller's byte slices are handed to the Muxer as sub-slices of a larger buffer (spare capacity
+// behind them): neither the payload nor anything behind it is modified by WritePacket (short payload: the packet is
+// padded by the muxer; exact fit) or by WriteData (payload spanning 1..3 packets), and the output is still correct
+func HarnessC16Caller(kind, n int) {
+	big := make([]byte, n+300)
+	for i := range big {
+		big[i] = byte(0x11 + i%0x60)
+	}
+	snap := append([]byte{}, big...)
+	sink := newVSink()
+	m := NewMuxer(vCtx{}, sink, MuxerOptTablesRetransmitPeriod(100))
+	switch kind {
+	case 0, 1, 2:
+		mp := &mPacket{hasPayload: true, pid: 0x123, cc: vBits8(4)}
+		if kind == 1 {
+			mp.hasAF = true
+			mp.af = mAF{hasPCR: true, pcrBase: vTS33(), pcrExt: vBits16(9)}
+		}
+		if kind == 2 {
+			mp.hasAF = true
+			mp.af = mAF{zeroLen: true}
+		}
+		mp.payload = big[:n]
+		cnt, err := m.WritePacket(modelToPacket(mp))
+		vassert("C16.caller.packet.err", err == nil && cnt == 188)
+		vassert("C04.packet.bytes", vBytesEq(sink.buf, refEncodePacket(mp)))
+	case 3:
+		m.AddElementaryStream(PMTElementaryStream{ElementaryPID: 0x100, StreamType: StreamTypeH264Video})
+		m.SetPCRPID(0x100)
+		d := &MuxerData{PID: 0x100, PES: &PESData{Header: &PESHeader{StreamID: 0xe0}, Data: big[:n]}}
+		_, err := m.WriteData(d)
+		vassert("C16.caller.data.err", err == nil)
+		vassert("C16.caller.data.slice", len(d.PES.Data) == n)
+	}
+	vassert("C16.caller.untouched", vBytesEq(big, snap))
+	vreach("C16.caller.end")
+}
+
+// HarnessC20RewindMulti: one PSI unit delivers three tables at once (they wait in the Demuxer's data buffer); Rewind
+// after any number of them has been handed out - the buffered rest must be forgotten, not replayed or skipped
+func HarnessC20RewindMulti(auto int) {
+	s := &sStream{}
+	var secs []*mSection
+	for k := 0; k < 3; k++ {
+		ps := mkPAT(uint16(0x1000 + k))
+		ps.ext, ps.version = uint16(0x1230+k), uint8(k)
+		ps.pat.TransportStreamID = ps.ext
+		ps.pat.Programs[0].ProgramNumber = uint16(k + 1)
+		secs = append(secs, ps)
+	}
+	pat := mkPSI(0, 1, secs, 0, 0)
+	s.add(pat, packetize(pat, 0, 184, true))
+	e1 := mkPESPattern(0x100, 200, true, 1)
+	s.add(e1, packetize(e1, 4, 184, false))
+	data := s.bytes()
+	ref, err := drainReader(newVSeekReader(data), 188)
+	vassert("C20.multi.ref", err == nil && len(ref) == 4)
+	r := newVSeekReader(data)
+	var dmx *Demuxer
+	if auto == 1 {
+		dmx = NewDemuxer(vCtx{}, r)
+	} else {
+		dmx = NewDemuxer(vCtx{}, r, DemuxerOptPacketSize(188))
+	}
+	for rounds := 0; rounds < 2; rounds++ {
+		k := vrange(0, 4)
+		for i := 0; i < k; i++ {
+			dmx.NextData()
+		}
+		n, err := dmx.Rewind()
+		vassert("C20.multi.rewind", n == 0 && err == nil)
+	}
+	var got []*DemuxerData
+	for j := 0; j < 10; j++ {
+		d, err := dmx.NextData()
+		if err == ErrNoMorePackets {
+			break
+		}
+		vassert("C20.multi.err", err == nil)
+		got = append(got, d)
+	}
+	vassert("C20.multi.count", len(got) == len(ref))
+	vassert("C20.multi.same", sameSeq(ref, got))
+	for i := 0; i < 3 && i < len(got); i++ {
+		vassert("C20.multi.order", got[i].PAT != nil && got[i].PAT.TransportStreamID == uint16(0x1230+i))
+	}
+	vreach("C20.multi.end")
+}
